@@ -182,12 +182,6 @@ class History:
         self.h0 = du.fnv64(du.canon_state(p))
 
     def step(self, ed, qs="*"):
-        if ed[0] == "G" and sum(reg_counts(self.circ).values()) == 0:
-            # declared region of the known finding group:no-registers:KeyError — evaluated on the implementation only,
-            # not sent to the model (the call does not change the circuit whether it raises or not)
-            err = du.apply_edit(self.circ, ed)
-            self.finding = ("group:no-registers:KeyError", err)
-            return "skipped"
         if ed[0] == "C":
             # continue on a deep copy (CircuitBase.copy): everything observable must be preserved
             try:
@@ -263,15 +257,8 @@ def report_violation(res, hist, step, key, clause):
 
 
 def note_finding(res, h):
-    if h.finding is None:
-        return
-    key, err = h.finding
-    if err == "key":
-        if not any(v["key"] == key for v in res.violations):
-            res.violation(key, "group_one_qubit_gates() raises KeyError('Output') on a circuit without registers",
-                          input={"ne": 0, "np": 0, "nc": 0, "edits": ["G"]})
-    elif key not in res.known_gone:
-        res.known_gone.append(key)
+    """(no finding region is declared at present; D47/D48 are fixed in the repository)"""
+    return
 
 
 def compare_with_model(res, drv, hists):
@@ -333,7 +320,7 @@ def one_walk(ctx, res, drv, rng, init, steps, malformed_rate=0.04, query_every=1
         h.qs[-1] = qs
         h.ans[-1] = du.answers(h.circ, qs)
         bad = oracle_state(h.circ, before, ed, err) + oracle_queries(h.circ, qs, h.ans[-1])
-        if err is not None and not mal and not (ed[0] == "G" and err == "assertion" and du_has_measz_history(h)):
+        if err is not None and not mal:
             bad.append((f"api:{ed[0]}:raises:{err}", f"{du.edit_token(ed)} raised {err} on a well-formed call"))
         if bad:
             report_violation(res, h, s, bad[0][0], bad[0][1])
@@ -352,11 +339,6 @@ def one_walk(ctx, res, drv, rng, init, steps, malformed_rate=0.04, query_every=1
     if h.tokens:
         res.sample(h.line()[:500])
     return h
-
-
-def du_has_measz_history(h):
-    """group_one_qubit_gates raises AssertionError when a MeasurementZ (label one-qubit, not a one-qubit gate class) is met"""
-    return any("MeasurementZ" in t for t in h.tokens)
 
 
 def gen_misuse(rng, circ):
@@ -502,7 +484,7 @@ def class_table(res):
     res.evaluations += len(du.ONE_Q) + len(du.TWO_Q) + len(du.CLASSICAL) + 2
 
 
-KNOWN_KEYS = {"group:no-registers:KeyError"}
+KNOWN_KEYS = set()
 
 
 def new_violations(res):
